@@ -70,7 +70,7 @@ def main():
     ck.cov['disagreements_checked'] = ck.cov['obligations']
     ck.assume("decided compositionally: (1) folding kernel - ConstProp::visitPost(BinaryOpExpr/UnaryOpExpr) on nodes built by the real constructors equals the X reference operator for all 2^64 operand pairs "
               "(wrap-around for + - unary-; boolean operands for and/or/~); val propagation yields exactly the declared constant; (2) materialisation - literals: `proc main() is 0(<literal>)` runs through the WHOLE compiler in the engine with every digit of a decimal literal of 1..10 digits (value < 2^32) or a hex literal of 1..8 digits a symbol (quick tier: 1-4 and 10 decimal, 1, 4 and 8 hex digits), and z3 proves that the constant the code loads (LDAC immediate or constant-pool DATA word) is the literal's value; C04 gives LDAC/LDBC v for all v, a DATA word is emitted verbatim, "
-              "the immediate/pool threshold is covered by programs with the constants 0, +-1, +-65535, +-65536, +-65537, +-INT_MAX in areg and breg position; (3) every operator and operand placement of the generator "
+              "the immediate/pool threshold is covered by programs with the constants 0, +-1, +-65535, +-65536, +-65537, +-INT_MAX in areg and breg position; two pool constants in one program (the pool is keyed by value) by the pool-pair family: c and c with bit k flipped for every k in 0..31 for three base constants, plus -c, ~c, c+1, c+65536, equal halves (pairs that differ in several chosen bits at once are outside); (3) every operator and operand placement of the generator "
               "with variable operands (symbolic) and with constant sub-trees is validated against the reference for all values of the variables",
               "agreement of the folded and the run-time variant follows from (1)+(2)+(3) wherever the variable variant is unconditionally correct; '<' and friends on operands whose difference overflows are outside (the property's C01 subset excludes comparison-difference overflow)",
               "signed overflow in the compiler's own int arithmetic is undefined in C++ and reported under ub_only; the value compared is the wrapped one (what the supported compilers produce)")
